@@ -337,7 +337,7 @@ func Send(method, rawurl string, options ...SendOption) (*http.Response, error) 
 		// TODO (@evelynl): disable retry after tls migration.
 		if err != nil && req.URL.Scheme == "https" && !opts.httpFallbackDisabled {
 			originalErr := err
-			resp, err = fallbackToHTTP(client, method, opts)
+			resp, err = fallbackToHTTP(client, req)
 			if err != nil {
 				// Sometimes the request fails for a reason unrelated to https.
 				// To keep this reason visible, we always include the original
@@ -510,14 +510,14 @@ func rewindBody(req *http.Request) bool {
 	return true
 }
 
-func fallbackToHTTP(
-	client *http.Client, method string, opts *sendOptions,
-) (*http.Response, error) {
-	req, err := newRequest(method, opts)
-	if err != nil {
-		return nil, err
-	}
-	req.URL.Scheme = "http"
+func fallbackToHTTP(client *http.Client, req *http.Request) (*http.Response, error) {
+	// The fallback is another attempt of the same request: it must carry the
+	// complete original body, whatever earlier attempts consumed of it. A body
+	// which cannot be replayed is sent as is (a failed TLS handshake has not
+	// touched it).
+	rewindBody(req)
+	hreq := req.Clone(req.Context())
+	hreq.URL.Scheme = "http"
 
-	return client.Do(req)
+	return client.Do(hreq)
 }
